@@ -122,6 +122,11 @@ class Result:
             for o in ob:
                 self.add(o)
             return
+        if ob.verdict == "differs" and any("Unknown(" in str(x) for x in (ob.code, ob.detail) if x is not None):
+            # the comparison failed on a value the interpreter could not model: that is a gap of the analysis
+            # (exit 2), never a violation of the property
+            ob.verdict = "uninterpretable"
+            ob.detail = "not modelled: %s" % (ob.detail if ob.detail is not None else ob.code)
         self.obs.append(ob)
 
     def finish(self, technique):
